@@ -11,6 +11,8 @@ import Earverif.Proofs.C02Laws
 import Earverif.Proofs.C02Compose
 import Earverif.Proofs.C02Render
 import Earverif.Proofs.C02RenderTS
+import Earverif.Proofs.C02OverlapSave
+import Earverif.Proofs.C02Trace
 import Earverif.Props.C20
 namespace Earverif.Stream
 
@@ -46,6 +48,32 @@ example : (Vbs.run (fun (s : Unit) (b : List Int) => (s, b.map (- ·))) 2 0
     (Vbs.init (fun (s : Unit) (b : List Int) => (s, b.map (- ·))) 2 0 ()) [[1], [2, 3, 4], [], [5]]).1 =
     [[0], [0, -1, -2], [], [-3]] := by decide
 
+/-! ### The partitioned overlap-save FFT convolver (`Model/OverlapSave.lean`, proofs in `Proofs/C02OverlapSave.lean`)
+
+`overlapSave_eq_fir` (any `B ≥ 1`, any non-empty filter, any number of blocks: concatenated `filter_block` outputs = the
+linear convolution), `os_step_spec` (the state invariant), `os_fir_sim`, `vbs_overlapSave_run_eq` and
+`vbs_overlapSave_eq` are proved there; here the C02 corollary and kernel-evaluated instances. -/
+
+/-- C02 for the decorrelation path as `ObjectRenderer` builds it (the adapter around the overlap-save convolver): two
+partitions of the same stream give the same concatenated output. -/
+theorem vbs_overlapSave_block_independent {V : Type} [RMod V] [LawfulRMod V] (f : List V) (B : Nat) (hB : 1 ≤ B)
+    (hf : f ≠ []) (p q : List (List V)) (h : p.flatten = q.flatten) :
+    (Vbs.run OS.step B 0 (Vbs.init OS.step B 0 (OS.init B f)) p).1.flatten =
+      (Vbs.run OS.step B 0 (Vbs.init OS.step B 0 (OS.init B f)) q).1.flatten := by
+  rw [(vbs_overlapSave_eq f B hB hf p).1, (vbs_overlapSave_eq f B hB hf q).1, h]
+
+/-- Non-vacuity of `overlapSave_eq_fir` (hypotheses `1 ≤ B`, `f ≠ []`, blocks of `B` rows): `B = 2`, a 5-tap filter
+(three partitions, the last one short), three blocks; the outputs are the linear convolution. -/
+example : (OS.run (OS.init 2 [1, 2, 3, 4, (5 : Rat)]) [[1, 0], [0, 2], [0, 0]]).toOption.map (·.2) =
+    some [[1, 2], [3, 6], [9, 6]] := by decide +kernel
+
+example : firAll [1, 2, 3, 4, (5 : Rat)] [1, 0, 0, 2, 0, 0] = [1, 2, 3, 6, 9, 6] := by decide +kernel
+
+/-- A filter shorter than the block (`B = 3`, 2 taps), and the adapter around the convolver over an uneven partition:
+the convolution delayed by `B`. -/
+example : (Vbs.run OS.step 3 0 (Vbs.init OS.step 3 0 (OS.init 3 [1, (-1 : Rat)])) [[1], [2, 3, 4, 5], [], [6, 7]]).1 =
+    [[0], [0, 0, 1, 1], [], [1, 1]] := by decide +kernel
+
 end Earverif.Stream
 
 /-! ### Composition (`Renderer.render` / `get_tail`) — partial -/
@@ -61,9 +89,9 @@ def alignedSum (D : Nat) (rs : List (Nat × List V × List V × List V)) : List 
     (List.zipWith (· + ·) ((rs.map (·.2.1)).flatten.drop D) (rs.map (·.2.2.1)).flatten)
     (rs.map (·.2.2.2)).flatten
 
-/-- Component fact (4) `aligner_eq`, NOT proved in this tree (stated here as a named hypothesis): for rounds with
-three equally long blocks at offsets (−D, 0, 0) no assertion of `BlockAligner` fails and the concatenated `get`s are
-the shifted sum. -/
+/-- Component fact (4) as a named statement (proved for all rounds by `aligner_eq` below; round 1 carried it as a
+hypothesis): for rounds with three equally long blocks at offsets (−D, 0, 0) no assertion of `BlockAligner` fails and
+the concatenated `get`s are the shifted sum. -/
 def AlignerFact (D : Nat) (rs : List (Nat × List V × List V × List V)) : Prop :=
   ∃ outs al, alignRun D (Aligner.init : Aligner V) 0 rs = .ok (outs, al) ∧ outs.flatten = alignedSum D rs
 
@@ -78,8 +106,8 @@ theorem aligner_eq [LawfulRMod V] (D : Nat) (rs : List (Nat × List V × List V 
 /-- **`render_refines_spec_partial`** (kept from round 1, the aligner hypothesis now discharged by `aligner_eq`): IF the
 three type renderers, each run on its own over the blocks followed by the tail block, succeed with per-call outputs
 `o1s/o2s/o3s` as long as the blocks, THEN the whole session succeeds and its concatenated output is the aligned sum
-`obj[s + overall_delay] + ds[s] + hoa[s]`.  Superseded by `render_refines_spec` below, which also discharges the three
-renderer hypotheses. -/
+`obj[s + overall_delay] + ds[s] + hoa[s]`.  Superseded by `render_refines_spec` (`Proofs/C02Render.lean`), which also
+discharges the three renderer hypotheses, and by `render_refines_spec_os` (`Proofs/C02OverlapSave.lean`). -/
 theorem render_refines_spec_partial [LawfulRMod V] (c : Cfg V) (objs : List (ObjItem V)) (dss : List (DsItem V))
     (hoas : List (HoaItem V)) (parts : List (List (List Rat)))
     (obj' : ObjState V) (ds' : List (Nat × DsBpc V)) (hoa' : List (List Nat × HoaBpc V)) (o1s o2s o3s : List (List V))
@@ -102,7 +130,8 @@ theorem render_refines_spec_partial [LawfulRMod V] (c : Cfg V) (objs : List (Obj
   rw [this]
   simp only [hflat]
 
-/-- **`C02_block_independent_partial`** (kept from round 1; superseded by `C02_block_independent`) — two blockings `p`,
+/-- **`C02_block_independent_partial`** (kept from round 1; superseded by `C02_block_independent` and, with the real
+convolver structure and the explicit quantifier, by `C02_block_independent_os`) — two blockings `p`,
 `q` of the same input: if each type renderer's concatenated output stream is the same for both blockings, the sessions
 return the same audio. -/
 theorem C02_block_independent_partial [LawfulRMod V] (c : Cfg V) (objs : List (ObjItem V)) (dss : List (DsItem V))
@@ -135,14 +164,17 @@ section Full
 variable {V : Type} [RMod V] [LawfulRMod V]
 
 /-- **`C02_block_independent`** — for a fixed input and accepted items, the rendered audio (all returned blocks and the
-tail, concatenated) does not depend on how the input is divided into `render` calls; every blocking succeeds. -/
+tail, concatenated) does not depend on how the input is divided into `render` calls; every blocking succeeds.
+(Statement about the model with the FIR stand-in and totalised indexing, for ALL inputs; the same with the real
+convolver structure and the quantifier spelled out is `C02_block_independent_os` below.) -/
 theorem C02_block_independent (c : Cfg V) (objs : List (ObjItem V)) (dss : List (DsItem V)) (hoas : List (HoaItem V))
     (hok : SessionOK c objs dss hoas) (p q : List (List (List Rat))) (h : p.flatten = q.flatten) :
     renderAll c objs dss hoas p = renderAll c objs dss hoas q := by
   rw [render_refines_spec c objs dss hoas hok p, render_refines_spec c objs dss hoas hok q, h]
 
 /-- **`C02_length_and_origin`** — every blocking succeeds, the concatenation of all returned blocks and the tail has
-exactly as many frames as were fed in, and frame `s` of it is output time `s` (the specified sample `outAt … s`). -/
+exactly as many frames as were fed in, and frame `s` of it is output time `s` (the specified sample `outAt … s`).
+(FIR stand-in, totalised indexing; in-quantifier version with the real convolver structure: `C02_length_and_origin_os`.) -/
 theorem C02_length_and_origin (c : Cfg V) (objs : List (ObjItem V)) (dss : List (DsItem V)) (hoas : List (HoaItem V))
     (hok : SessionOK c objs dss hoas) (parts : List (List (List Rat))) :
     ∃ out, renderAll c objs dss hoas parts = .ok out ∧ out.length = parts.flatten.length ∧
@@ -151,6 +183,27 @@ theorem C02_length_and_origin (c : Cfg V) (objs : List (ObjItem V)) (dss : List 
   refine ⟨_, render_refines_spec c objs dss hoas hok parts, by simp [RenderSpec.out], ?_⟩
   intro s hs
   simp only [RenderSpec.out, List.getElem?_map, List.getElem?_range hs, Option.map_some]
+
+/-- **`C02_block_independent_os`** — the property, for the renderer model with the partitioned overlap-save convolver
+inside `ObjectRenderer` (`Model/OverlapSave.lean`; via `render_refines_spec_os`) and with the quantifier spelled out
+(`SessionWF`: accepted timelines, `block_size ≥ 1`, tracks inside the input, decode matrices as wide as the item has
+tracks, a decorrelation filter with ≥ 1 tap; `InputOK`: frames of `n_in` samples): the rendered audio (all returned
+blocks and the tail, concatenated) does not depend on the blocking; every blocking succeeds. -/
+theorem C02_block_independent_os (c : Cfg V) (objs : List (ObjItem V)) (dss : List (DsItem V)) (hoas : List (HoaItem V))
+    (hok : SessionWF c objs dss hoas) (p q : List (List (List Rat))) (h : p.flatten = q.flatten)
+    (hin : InputOK c p.flatten) :
+    renderAllOS c objs dss hoas p = renderAllOS c objs dss hoas q := by
+  rw [render_refines_spec_os c objs dss hoas hok p hin, render_refines_spec_os c objs dss hoas hok q (h ▸ hin), h]
+
+/-- **`C02_length_and_origin_os`** — the same for `C02_length_and_origin`: exactly the input's length, frame `s` is
+output time `s`. -/
+theorem C02_length_and_origin_os (c : Cfg V) (objs : List (ObjItem V)) (dss : List (DsItem V)) (hoas : List (HoaItem V))
+    (hok : SessionWF c objs dss hoas) (parts : List (List (List Rat))) (_hin : InputOK c parts.flatten) :
+    ∃ out, renderAllOS c objs dss hoas parts = .ok out ∧ out.length = parts.flatten.length ∧
+      ∀ s, s < parts.flatten.length →
+        out[s]? = some (RenderSpec.outAt c objs dss hoas parts.flatten s) := by
+  rw [renderAllOS_eq c hok.ok.block_size_pos hok.taps_ne]
+  exact C02_length_and_origin c objs dss hoas hok.ok parts
 
 end Full
 
@@ -193,6 +246,23 @@ theorem C02_length_and_origin_ts (c : Cfg V) (objs : List (ObjItemTS V)) (dss : 
   refine ⟨_, render_eq_outTS c objs dss hoas hok parts, by simp [outTS], ?_⟩
   intro s hs
   simp only [outTS, List.getElem?_map, List.getElem?_range hs, Option.map_some]
+
+/-- **`C02_block_independent_ts_os`** — `C02_block_independent_ts` for the renderer with track processors AND the
+partitioned overlap-save convolver (`renderAllTSOS`, `Model/OverlapSave.lean`). -/
+theorem C02_block_independent_ts_os (c : Cfg V) (objs : List (ObjItemTS V)) (dss : List (DsItemTS V))
+    (hoas : List (HoaItemTS V)) (hok : SessionWFTS c objs dss hoas) (p q : List (List (List Rat)))
+    (h : p.flatten = q.flatten) (hin : InputOK c p.flatten) :
+    renderAllTSOS c objs dss hoas p = renderAllTSOS c objs dss hoas q := by
+  rw [render_eq_outTS_os c objs dss hoas hok p hin, render_eq_outTS_os c objs dss hoas hok q (h ▸ hin), h]
+
+/-- **`C02_length_and_origin_ts_os`** — the same for `C02_length_and_origin_ts`. -/
+theorem C02_length_and_origin_ts_os (c : Cfg V) (objs : List (ObjItemTS V)) (dss : List (DsItemTS V))
+    (hoas : List (HoaItemTS V)) (hok : SessionWFTS c objs dss hoas) (parts : List (List (List Rat)))
+    (_hin : InputOK c parts.flatten) :
+    ∃ out, renderAllTSOS c objs dss hoas parts = .ok out ∧ out.length = parts.flatten.length ∧
+      ∀ s, s < parts.flatten.length → out[s]? = some (outAtTS c objs dss hoas parts.flatten s) := by
+  rw [renderAllTSOS_eq c hok.ok.block_size_pos hok.taps_ne]
+  exact C02_length_and_origin_ts c objs dss hoas hok.ok parts
 
 end
 
